@@ -33,6 +33,7 @@ type Scenario struct {
 	ValSets         [][]int       `json:"val_sets,omitempty"`
 	RejectReqV0     []int         `json:"reject_req_v0,omitempty"` // nodes whose VerifyPrepareRequest rejects view-0 proposals
 	FailPre         int           `json:"fail_pre,omitempty"`      // first k ProcessPreBlock calls per node and height fail
+	PreDataTxOnly   bool          `json:"pre_data_tx_only,omitempty"` // pre-commit data binds only (height, transactions), see types.go preDataHash
 	FailBlk         int           `json:"fail_blk,omitempty"`      // first k ProcessBlock calls per node and height fail (AMEV only)
 	FailNodes       []int         `json:"fail_nodes,omitempty"`
 	Dev             Dev           `json:"dev"`
@@ -269,6 +270,7 @@ func newStats() *Stats {
 var curWorld *World
 
 func newWorld(sc *Scenario, st *Stats) *World {
+	preDataTxOnly = sc.PreDataTxOnly
 	w := &World{sc: sc, decided: map[uint32]H{}, decidedView: map[uint32]byte{}, blocks: map[uint32]*Block{},
 		wireSet: map[H]bool{}, violKeys: map[string]bool{}, stats: st}
 	if w.stats == nil {
